@@ -62,7 +62,24 @@ def handle (op : String) (j : Json) : Except String Json := do
       let k ← parseKind (← getStr o "kind")
       pure (⟨i, k⟩ : Obj))
     let presetNames ← objsJ.mapM (fun o => getOptStr o "name")
-    let ops ← (← getArr j "ops").toList.mapM (parseOp objs)
+    -- `revis`: the visibility of a held Signal is edited on the object (signal <-> port). The namespace machine has no such operation and
+    -- needs none: from then on the very same identity is presented to it with its other kind (an `Obj` is identity + kind *as filed*;
+    -- the theorems quantify over all operation sequences, these included). The edit itself is a step that changes nothing.
+    let flip (o : Obj) : Obj := match o.kind with | .signal => ⟨o.id, .port⟩ | .port => ⟨o.id, .signal⟩ | _ => o
+    let rec parseOps (objs : Array Obj) : List Json → Except String (List Op)
+      | [] => pure []
+      | oj :: rest => do
+        match oj.getObjValAs? String "op" with
+        | .ok "revis" =>
+          let i ← getNat oj "v"
+          let objs' := match objs[i]? with | some o => objs.set! i (flip o) | none => objs
+          let r ← parseOps objs' rest
+          pure (Op.get "" :: r)
+        | _ =>
+          let o ← parseOp objs oj
+          let r ← parseOps objs rest
+          pure (o :: r)
+    let ops ← parseOps objs (← getArr j "ops").toList
     -- the private names: every name of the case that starts with an underscore
     let cfg : Cfg := { cfg0 with priv := (names ++ ops.flatMap Op.names).filter (fun n => n.startsWith "_") }
     let init := State.init (fun i => (presetNames[i]?).join)
